@@ -43,20 +43,21 @@ func (s *sink) Write(p []byte) (int, error) {
 }
 
 type termCase struct {
-	Shape     vlib.Shape
-	Ending    string // max-duration | own-duration | limit | cancel-before | cancel-during-setup | cancel-mid-run | setup-fail | setup-panic
-	Blocking  string // instant | sleep | blocked
-	SleepUs   int
-	Blocked   int // number of iterations that block until after Do returned
-	WaitMs    int // completion timeout
-	CancelMs  int
-	TickCoinc bool // the run ends within a few ms of the 1 s progress tick
-	ViaCLI    bool // through f1.New().Add().ExecuteWithArgs (completion timeout is then the CLI's 10 s)
+	Shape       vlib.Shape
+	Ending      string // max-duration | own-duration | limit | cancel-before | cancel-during-setup | cancel-mid-run | setup-fail | setup-panic
+	Blocking    string // instant | sleep | blocked
+	SleepUs     int
+	Blocked     int // number of iterations that block until after Do returned
+	WaitMs      int // completion timeout
+	CancelMs    int
+	TickCoinc   bool // the run ends within a few ms of the 1 s progress tick
+	StragglerMs int  // iteration 1 takes this long (0 = like the others)
+	ViaCLI      bool // through f1.New().Add().ExecuteWithArgs (completion timeout is then the CLI's 10 s)
 }
 
 func (c termCase) desc() string {
 	return fmt.Sprintf("%s ending=%s blocking=%s sleep=%dus blocked=%d wait=%dms cancel=%dms tickCoincident=%v viaCLI=%v",
-		c.Shape.Desc, c.Ending, c.Blocking, c.SleepUs, c.Blocked, c.WaitMs, c.CancelMs, c.TickCoinc, c.ViaCLI)
+		c.Shape.Desc, c.Ending, c.Blocking, c.SleepUs, c.Blocked, c.WaitMs, c.CancelMs, c.TickCoinc, c.ViaCLI) + fmt.Sprintf(" straggler=%dms", c.StragglerMs)
 }
 
 func genCase(t *rapid.T) termCase {
@@ -111,6 +112,12 @@ func genCase(t *rapid.T) termCase {
 		sh.Desc = "file c=" + fmt.Sprint(sh.Concurrency) + " users-then-rate yaml=" + strings.ReplaceAll(sh.FileYAML, "\n", "|")
 		c.Blocking = "sleep"
 		c.SleepUs = 20000
+		if rapid.Bool().Draw(t, "stragglerFromFirstStage") {
+			// iteration 1, started in the first stage, is still running 200 ms after the LAST stage has ended:
+			// the run waits for it like for any other started iteration
+			c.StragglerMs = d1 + d2 + 200
+			c.SleepUs = 5000
+		}
 	}
 	c.WaitMs = 20000
 	if c.Blocking == "blocked" {
@@ -123,6 +130,12 @@ func genCase(t *rapid.T) termCase {
 	if c.Ending == "max-duration-then-cancel" {
 		c.Blocking, c.SleepUs, c.Blocked, c.WaitMs = "sleep", 150000, 0, 20000
 		c.CancelMs = int(c.Shape.MaxDuration.Milliseconds()) + rapid.IntRange(10, 80).Draw(t, "cancelAfterEndMs")
+		if rapid.IntRange(0, 2).Draw(t, "blockedThroughTheWait") == 0 && !(c.Shape.Mode == "users" || c.Shape.Mode == "file") {
+			// an iteration blocked for good: the completion timeout (5 s) is counted once, from the moment
+			// triggering stopped - a cancellation arriving late in that wait does not start it again
+			c.Blocking, c.Blocked, c.WaitMs = "blocked", 1, 5000
+			c.CancelMs = int(c.Shape.MaxDuration.Milliseconds()) + rapid.IntRange(3500, 4700).Draw(t, "cancelLateInTheWaitMs")
+		}
 	}
 	switch c.Ending {
 	case "max-duration", "own-duration", "limit", "setup-fail", "setup-panic":
@@ -192,6 +205,8 @@ func execute(c termCase, dir string) (observation, error) {
 			}
 			id, _ := strconv.ParseUint(it.Iteration, 10, 64)
 			switch {
+			case c.StragglerMs > 0 && id == 1:
+				time.Sleep(time.Duration(c.StragglerMs) * time.Millisecond)
 			case c.Blocking == "blocked" && id <= uint64(c.Blocked):
 				<-release
 			case c.Blocking == "sleep":
@@ -301,6 +316,14 @@ func judge(c termCase, obs observation) string {
 		if !obs.resFailed {
 			return "setup failed but the run is not reported failed"
 		}
+	case "max-duration-then-cancel":
+		if c.Blocking == "blocked" {
+			due := c.Shape.ScheduledStop() + time.Duration(c.WaitMs)*time.Millisecond
+			if over := obs.elapsed - due; over > lateMargin {
+				return fmt.Sprintf("triggering stopped %s after the run began (max-duration), the completion timeout of %dms expired at %s, but Do only returned after %s (%s later; the caller cancelled at %dms, during the wait)",
+					c.Shape.ScheduledStop(), c.WaitMs, due.Round(time.Millisecond), obs.elapsed.Round(time.Millisecond), over.Round(time.Millisecond), c.CancelMs)
+			}
+		}
 	case "max-duration", "own-duration":
 		if late := obs.lateEntry - c.Shape.ScheduledStop(); late > lateMargin {
 			return fmt.Sprintf("an iteration started %s after the run began, %s later than the scheduled stop %s (min of max-duration %s and the trigger's own duration %s, less 10 ms)",
@@ -357,6 +380,9 @@ func TestProp_Terminates(t *testing.T) {
 		}
 		if c.ViaCLI {
 			cls = append(cls, "through-the-cli")
+		}
+		if c.StragglerMs > 0 {
+			cls = append(cls, "first-stage-iteration-outlives-the-last-stage")
 		}
 		if obs.elapsed > 3*time.Second {
 			rt.Logf("slow case (%s): %s", obs.elapsed, c.desc())
